@@ -139,12 +139,16 @@ def pmap(ctx, fn, items, chunk=None):
 
 # ---------------------------------------------------------------- known findings
 def load_known():
-    path = os.path.join(VERIF, "known_findings.jsonl")
+    paths = [os.path.join(VERIF, "known_findings.jsonl")]
+    extra = os.environ.get("VERIF_EXTRA_KF")   # development aid only
+    if extra:
+        paths.append(extra)
     out = []
-    if os.path.exists(path):
-        with open(path) as f:
-            for line in f:
-                line = line.strip()
-                if line and not line.startswith("#"):
-                    out.append(json.loads(line))
+    for path in paths:
+        if os.path.exists(path):
+            with open(path) as f:
+                for line in f:
+                    line = line.strip()
+                    if line and not line.startswith("#"):
+                        out.append(json.loads(line))
     return out
